@@ -328,6 +328,18 @@ def run(rec, cfg):
     for i, (c, v, e) in enumerate(grid):
         if cfg.mine(i) and not (v == "" and e != "") and not (c in ("", "-") and v == ""):
             check_term_ex(rec, rng, c, v, e)
+    from . import _rulecommon as RC
+    import mathy_core.util as U
+
+    if cfg.shard == 3 % cfg.nshards:
+        for t in RC.long_texts():
+            try:
+                root = D.parse(t)
+            except Exception:
+                continue
+            if S.kind(root) != "Equal":
+                drive_predicates(rec, rng, root)
+                rec.arm("like:long-expression")
     n = cfg.scale(500, 20000)
     corp = WT.corpus()
     for i in range(n):
